@@ -59,6 +59,10 @@ def run(R, job):
         for it in range(n):
             checked += 1
             deps = [dep(i) for i in range(r.choice([1, 1, 2, 3]))]
+            if r.random() < 0.35:
+                # two distinct serialisations that agree on name and version (one per distinct serialisation must be recovered)
+                twin = core.HTMLDependency(deps[0].name, str(deps[0].version), script={"src": "twin-" + hs(1)}, head="<!--twin-->")
+                deps.append(twin)
             indent = r.choice([None, None, 0, 2, 4])
             ser = [d.serialize_to_script_json(indent=indent).get_html_string() for d in deps]
             # (b)
